@@ -77,6 +77,8 @@ type Outcome struct {
 	RepollRecords int `json:"repoll_records,omitempty"`
 	// WarmupOpens counts the ContainerLogs calls of the warm-up evaluations (Variant.Warmup).
 	WarmupOpens int `json:"warmup_opens,omitempty"`
+	// After holds the answers of the evaluations that followed once faults had stopped (Variant.After).
+	After []AfterEval `json:"after,omitempty"`
 }
 
 // Bad reports whether the execution ended abnormally (panic or hang).
@@ -219,6 +221,15 @@ type evalResult struct {
 	data    lokiapi.QueryResponseData
 	hasData bool
 	err     error
+	after   []AfterEval
+}
+
+// AfterEval is the answer of one evaluation that followed the judged one on the
+// same Engine, after all faults had stopped (Variant.After).
+type AfterEval struct {
+	Failed  bool   `json:"failed"`
+	ErrText string `json:"err,omitempty"`
+	Render  string `json:"render,omitempty"`
 }
 
 func bubble(p *Plan, world *World, v *Variant, opts ExecOpts, out *Outcome) {
@@ -298,6 +309,7 @@ func bubble(p *Plan, world *World, v *Variant, opts ExecOpts, out *Outcome) {
 			} else if res.hasData {
 				out.Result = Canonicalize(res.data)
 			}
+			out.After = res.after
 		}
 	default:
 	}
@@ -517,6 +529,25 @@ func runEngine(d *Daemon, p *Plan) (res evalResult) {
 		Limit: p.Params.Limit,
 	})
 	res.hasData = res.err == nil
+	if v := d.variant; v != nil && v.After > 0 {
+		d.FaultsOff()
+		d.SetPhase(200)
+		for i := 0; i < v.After; i++ {
+			data, err := eng.Eval(context.Background(), p.Query, logqlengine.EvalParams{
+				Start: otelstorage.Timestamp(p.Params.Start),
+				End:   otelstorage.Timestamp(p.Params.End),
+				Step:  time.Duration(p.Params.StepNs),
+				Limit: p.Params.Limit,
+			})
+			ae := AfterEval{Failed: err != nil}
+			if err != nil {
+				ae.ErrText = err.Error()
+			} else {
+				ae.Render = Canonicalize(data).Render()
+			}
+			res.after = append(res.after, ae)
+		}
+	}
 	return res
 }
 
